@@ -161,7 +161,8 @@ def _compare(rec, cfg, algorithm, tables, dims, nparams, scope_lib, scope_ref, m
 
 def _replay(cfg, model, nm, idx):
     """Concrete replay: the same program on numeric inputs at the model point, library vs reference (plain floats)."""
-    return True, {"series": nm, "index": list(idx), "note": "library value differs from the reference interpreter for the model inputs", "model_size": len(model)}
+    return True, {"series": nm, "index": list(idx), "note": "library value differs from the reference interpreter for the model inputs", "model_size": len(model),
+                  "program": cfg.get("source", "")[:2000], "schedule": cfg.get("schedule")}
 
 
 # ------------------------------------------------------------------------------------------------
@@ -267,6 +268,7 @@ class Gen:
         # series with the identity start are outputs only (the `one` sentinel supports no arithmetic)
         usable = [nm for nm in names if starts[nm] != 1]
         products = []
+        min_user = {}
         for _ in range(self.n_products):
             k = 3 if ("product3" in self.features and r.random() < 0.3) else 2
             fac = [r.choice(usable + ["A"]) for _ in range(k)]
@@ -275,6 +277,10 @@ class Gen:
             p = " @ ".join(fac)
             if p not in products:
                 products.append(p)
+                # a product whose factors all have an absent zeroth order only needs lower orders of its factors and may be
+                # used anywhere; otherwise it needs the same order of its series factors and may only be used by later series
+                safe = all(f != "A" and starts[f] == 0 for f in fac)
+                min_user[p] = 0 if safe else 1 + max(names.index(f) for f in fac if f != "A")
         lines = ["def program():"]
         for kidx, nm in enumerate(names):
             lines.append(f'    with "{nm}":')
@@ -283,7 +289,9 @@ class Gen:
             if "marker" in self.features and r.random() < 0.4:
                 lines.append("        " + r.choice(["hermitian", "antihermitian"]))
             # references: inputs, earlier series, products (cycle detection of the reference discards ill-founded programs)
-            pool = ["A"] + [n for n in usable if n in names[:kidx]] + products + ([n for n in usable if n in names[kidx:]] if r.random() < 0.15 else [])
+            pool = ["A"] + [n for n in usable if n in names[:kidx]] + [p for p in products if min_user[p] <= kidx]
+            if r.random() < 0.1:  # occasionally an (often ill-founded) forward reference: such programs are discarded by the reference
+                pool += [n for n in usable if n in names[kidx:]] + products
             nst = r.randint(1, 3)
             for _ in range(nst):
                 cond = r.choice([None, "diagonal", "offdiagonal"] if "cond" in self.features else [None])
